@@ -24,7 +24,7 @@ def base_frames(ctx, b, d, rnd, prop):
     """valid frames: small ones (byte level) for several option vectors, and multi-block ones"""
     q = ctx.tier == "quick"
     cases = []
-    vecs = fl.opt_vectors(rnd, 10 if q else 48, codes=(4, 5), legacy_share=0.15, conc=(1,))
+    vecs = fl.opt_vectors(rnd, 10 if q else 90, codes=(4, 5), legacy_share=0.15, conc=(1,))
     for o in vecs:
         o = dict(o)
         if o.get("size") == -1:
@@ -135,7 +135,7 @@ def c06_cases(ctx, bases, rnd):
                 for dlt in range(-3, 4):
                     if 1 <= x + dlt < n:
                         cuts.add(x + dlt)
-            for _ in range(24 if q else 64):
+            for _ in range(24 if q else 200):
                 cuts.add(rnd.randrange(1, n))
             cuts = sorted(cuts)
         B = fl.block_of(c["opts"])
